@@ -472,6 +472,8 @@ Record subn_case := mkSubn {
   sc_mlstr : list text;                 (* texts with a line that begins inside a string literal *)
   sc_coms : option (list nat);          (* CPython's tokenizer: lines with an ignore COMMENT token *)
   sc_ilines : list range;               (* physical lines for which core.has_ignore_comment answers True *)
+  sc_probes : list (range * bool);      (* core.has_ignore_comment on probe ranges: first / last character of
+                                           every physical line, insertion points at its first column and at its end *)
   sc_items : option (list (range * text));  (* what find_replace yielded inside subn; None = ValueError *)
   sc_sched : list flat_entry;           (* what _schedule_rewrites returned *)
   sc_cand : text;                       (* text after the chain of _do_rewrite calls *)
@@ -515,7 +517,9 @@ Definition model_n (c : subn_case) : Z :=
 (* result code: 0 = agreement; otherwise the first component that differs (6 = the text depends on a
    validity answer the implementation never produced) *)
 Definition subn_case_code (c : subn_case) : nat :=
-  if negb (ranges_eqb (ignore_lines (sc_src c) (sc_coms c)) (sc_ilines c)) then 1%nat
+  if negb (ranges_eqb (ignore_lines (sc_src c) (sc_coms c)) (sc_ilines c))
+     || negb (forallb (fun p => Bool.eqb (ignored (sched_ilines (sc_src c) (sc_coms c)) (fst p)) (snd p))
+                      (sc_probes c)) then 1%nat
   else match model_items c, sc_items c with
        | None, None => 0%nat
        | Some a, Some b =>
